@@ -92,14 +92,18 @@ class RollingReduction(Expr):
             columns = [col for col in self.frame.columns if col in columns]
             if columns == self.frame.columns:
                 return
-            if self.groupby_kwargs is not None:
-                return type(parent)(
-                    type(self)(self.frame[columns], *self.operands[1:]),
-                    *parent.operands[1:],
-                )
-            if len(columns) == 1:
-                columns = columns[0]
-            return type(self)(self.frame[columns], *self.operands[1:])
+            if (
+                self.groupby_kwargs is None
+                and not isinstance(parent.operand("columns"), list)
+                and len(columns) == 1
+            ):
+                # Scalar selection of the only required column: we can
+                # operate on the Series directly and drop the projection
+                return type(self)(self.frame[columns[0]], *self.operands[1:])
+            return type(parent)(
+                type(self)(self.frame[columns], *self.operands[1:]),
+                *parent.operands[1:],
+            )
 
     @property
     def _is_blockwise_op(self):
